@@ -26,13 +26,23 @@ func (m *collection) NotifyMerger(kind string, synchronous bool) error {
 		pongCh = make(chan struct{})
 	}
 
-	m.pingMergerCh <- ping{
+	// Once the collection is closed nobody receives the pings or answers
+	// them any more, so a closed collection must not be waited for.
+	select {
+	case m.pingMergerCh <- ping{
 		kind:   kind,
 		pongCh: pongCh,
+	}:
+	case <-m.stopCh:
+		return ErrClosed
 	}
 
 	if pongCh != nil {
-		<-pongCh
+		select {
+		case <-pongCh:
+		case <-m.stopCh:
+			return ErrClosed
+		}
 	}
 
 	atomic.AddUint64(&m.stats.TotNotifyMergerEnd, 1)
